@@ -12,6 +12,7 @@ import (
 	"os"
 	"path/filepath"
 	"sort"
+	"strings"
 	"strconv"
 	"sync"
 	"sync/atomic"
@@ -197,6 +198,8 @@ type Result struct {
 	LinearBlocks   []string // block ids processed by the linear pipeline, in order
 	Stuck          bool     // no progress with no job in flight: cancelled by the harness
 	Wall           time.Duration
+	// EndedAtHead: an open-ended request (stop 0) that ran until the chain's last block (the harness's way to end it)
+	EndedAtHead uint64
 }
 
 func snapStores(m store.Map) map[string]StoreSnap {
@@ -646,6 +649,11 @@ func (c *Cluster) Run(spec RequestSpec) *Result {
 		}()
 		res.Err = svc.TestBlocks(ctx, false, req, rs.collect)
 		close(returned)
+		if spec.Stop == 0 && res.Err != nil && strings.Contains(res.Err.Error(), "chain head") && !res.Stuck {
+			// an open-ended request lives until the client goes away; here: until the harness's chain has no more blocks
+			res.Err = nil
+			res.EndedAtHead = c.Head
+		}
 	}
 	rs.mu.Lock()
 	rs.closed = true
